@@ -20,9 +20,9 @@ func (c20) ID() string { return "C20" }
 func (c20) Info(tier string) fw.Info {
 	return fw.Info{
 		Level: "exploration",
-		Rule: "programs of the class the property states — the shipped examples/*.hms and tests/*.hms that are accepted and finish within 3M instructions (no sleep/spawn/network), and a seeded class-restricted generator (props/c20/gen.go: pure operands wherever the transformer reorders or duplicates [+ - * < > <= >=], impure operands where it keeps the order [/ % == != && ||], integer multiplications with right operand 0..12, int literals below 2^20, floats that keep all arithmetic exact, globals, functions with early returns, recursion, while/loop/for with break/continue, if/else-if/else and blocks as statements and values, try/catch with general try and catch bodies, break/continue/return below towers of carrier constructs [then/else/else-if branches, block statements, try blocks, catch blocks, non-default match arms, value blocks in call arguments, (compound) assignments, list elements, indices, cast/prefix/division operands and let initialisers] with conditions that depend on the loop counter, a loop-control-focused sub-population, lists, casts) — are analysed; " +
+		Rule: "programs of the class the property states — the shipped examples/*.hms and tests/*.hms that are accepted and finish within 3M instructions (no sleep/spawn/network), and a seeded class-restricted generator (props/c20/gen.go: pure operands wherever the transformer reorders or duplicates [+ - * < > <= >=], impure operands where it keeps the order [/ % == != && ||], integer multiplications with right operand 0..12, int literals below 2^20, floats that keep all arithmetic exact, globals, functions with early returns, recursion, while/loop/for with break/continue, if/else-if/else and blocks as statements and values, try/catch with general try and catch bodies, break/continue/return below towers of carrier constructs [then/else/else-if branches, block statements, try blocks, catch blocks, non-default match arms, value blocks in call arguments, (compound) assignments, list elements, indices, cast/prefix/division operands and let initialisers] with conditions that depend on the loop counter, a loop-control-focused sub-population, lists, casts; plus a data population (props/c20/gen_obj.go): object literals and object types whose field names are plain identifiers, every reserved word of the lexer or text that is no identifier, in every position the printed tree carries a type or a literal [inferred and annotated let, global, parameter, result, function literal, cast, type alias, list element, option, nested object, value of an if / a block, field value as carrier of a loop exit], field reads and writes by member and by index, keys/to_json, loops over lists of objects) — are analysed; " +
 			"fuzzer.NewTransformer(seed).Transform is applied 1,2,3(,5) times in a chain exactly as fuzzer.Generator does, for a window of transformer seeds per program; every printed variant (AnalyzedProgram.String()) must be accepted by the analyzer and produce the same VM effects and outcome as the original (limits 2048/500/100000); a panic of Transform or String is an event. " +
-			"Programs whose UNtransformed tree already fails print+reparse+run are printer defects (C19): counted as printer-baseline-broken, only Transform panics are judged for them. Constructs poisoned by an open finding are kept out of the main workload (checked on the analysed tree by props/c20/tags.go) and exercised by a small poisoned workload each. " +
+			"The UNtransformed tree is printed, reparsed and run as a baseline: if it is rejected (or printing panics) the variants are still judged — every variant comes out of the same printer and the property demands that it is accepted — and the explanation says that the untransformed tree fails alike; if it is accepted but behaves differently, a generated program (whose output cannot depend on its layout or the clock) is judged as usual, a shipped program is taken to observe its own layout or the clock (error spans, dates) and only Transform panics are judged for it (counted as printer-baseline-broken). Constructs poisoned by an open finding are kept out of the main workload (checked on the analysed tree by props/c20/tags.go) and exercised by a small poisoned workload each. " +
 			"non-trivial = at least one variant whose text differs from the printed original was produced (or a refuting event was seen) and the original writes at least 2 lines; distinct = distinct source text",
 		Assumptions: []string{
 			"variants are executed on the VM only (as cmd/validate.go does)",
@@ -107,7 +107,7 @@ func (c20) Run(c fw.Case) fw.Result {
 		src = drive.Sources{"main": p.Gen.Source()}
 	}
 	res := fw.Result{Verdict: fw.Held, Hash: fw.HashOf(map[string]string(src))}
-	j := Judge(src, p.Seeds, p.Passes)
+	j := JudgeProgram(src, p.Seeds, p.Passes, p.Gen != nil)
 	res.Evals = j.Evals + 1
 	res.Obs = map[string]int64{"variants_executed": j.Variants, "variant_duplicates": j.Dups, "variants_changed": j.Changed}
 	for k := range j.Cover {
